@@ -46,7 +46,7 @@ finding(["C02","C13"], "S5", "AP.S~Shape.S",
         "LEN = ((END - START) / STEP) ; if ((((END - START) % STEP) > 0) && (I > 0)) { LEN = (LEN + 1) } ; if (0 >= LEN) { LEN = 1 } | LEN = (END - START) <> LEN = ((END - START) / STEP) ; if (0 >= LEN) { LEN = 1 } | LEN = (END - START)", 3)
 
 # ---- engine O (ownership) ---------------------------------------------------------------------
-finding(["C19","C13","C03","C08","C04","C09"], "O8", "tensor.(*Dense).ShallowClone#store1",
+finding(["C19","C13","C03","C08","C04","C09","C18"], "O8", "tensor.(*Dense).ShallowClone#store1",
         "ShallowClone shares old (and transposeWith) with the source: s := a.ShallowClone(); s.UT(); a.UT() puts one slice in the pool twice",
         "alias stored into another object", 33)
 
